@@ -474,9 +474,31 @@ fn twin_cat(s: &RSchema, id: Id) -> u32 {
 	}
 }
 
-fn named_branch(s: &RSchema, bs: &[Id], name: &str, inner: &Call, o: &Opts) -> Option<Expect> {
+fn named_index(s: &RSchema, bs: &[Id], name: &str) -> Option<usize> {
 	// a name designates a branch when it is its documented branch name; a short name only when
 	// no branch has it as full name and exactly one branch has that short name
+	let mut idx: Vec<usize> = bs
+		.iter()
+		.enumerate()
+		.filter(|(_, &b)| s.branch_name(b) == name)
+		.map(|(i, _)| i)
+		.collect();
+	if idx.is_empty() {
+		idx = bs
+			.iter()
+			.enumerate()
+			.filter(|(_, &b)| s.fullname(b).map_or(false, |f| split_fullname(f).1 == name && f != name))
+			.map(|(i, _)| i)
+			.collect();
+	}
+	if idx.len() == 1 {
+		Some(idx[0])
+	} else {
+		None
+	}
+}
+
+fn named_branch(s: &RSchema, bs: &[Id], name: &str, inner: &Call, o: &Opts) -> Option<Expect> {
 	let mut idx: Vec<usize> = bs
 		.iter()
 		.enumerate()
@@ -518,6 +540,16 @@ fn union_expect(s: &RSchema, bs: &[Id], c: &Call, o: &Opts) -> Expect {
 			}
 			if let Some(e) = named_branch(s, bs, name, &stripped, o) {
 				return e;
+			}
+		}
+		Call::UnitVariant(name, _, _) => {
+			// a Rust enum named like an Avro enum of the union designates that enum
+			if let Some(i) = named_index(s, bs, name) {
+				if matches!(s.eff(bs[i]), Eff::Enum) {
+					if let Some(e) = named_branch(s, bs, name, c, o) {
+						return e;
+					}
+				}
 			}
 		}
 		Call::TupleVariant(name, xs) => {
